@@ -94,6 +94,18 @@ func seed(parts ...string) *rng {
 // escaping in JSON, in directory names or in journal file names.
 var outKeys = []string{"k0", "k1", "k2", "k3", "k4", "k0", "k1", "k2", "a.b", "x:y", "50%", "sp ace", "q\"t", "b\\s", "é", "%2E", "fork0", "nl\nx", "tab\t", ".u0123456789", "chnk1", "_", "-"}
 
+// nameSuffixes: string outputs double as file names (file runs write a file
+// of that name); some need escaping in JSON - differently in different JSON
+// writers - and all are legal file names.
+var nameSuffixes = []string{"é", " b", "q\"t", "b\\s", "t\tb", "n\nl", "世界", "a'b", "<&>", "\U0001F600", "%41", "\\u00e9"}
+
+func hostileSuffix(r *rng) string {
+	if r.intn(4) != 0 {
+		return ""
+	}
+	return nameSuffixes[r.intn(len(nameSuffixes))]
+}
+
 // Behaviour knobs, fixed per run (pure functions of the spec otherwise).
 type Opts struct {
 	// Salt perturbs every generated value (used by the reference model to
@@ -119,7 +131,7 @@ func genValue(r *rng, u *mrogen.Universe, prog *mrogen.Program, ty mrogen.Ty, o 
 		return nil
 	}
 	if el, ok := ty.Elem(); ok {
-		n := []int{0, 1, 2, 2, 3, 3}[r.intn(6)]
+		n := []int{0, 1, 2, 2, 3, 3, 4, 5}[r.intn(8)]
 		if top && len(o.ArrayLens) > 0 {
 			n = o.ArrayLens[r.intn(len(o.ArrayLens))]
 		}
@@ -148,7 +160,7 @@ func genValue(r *rng, u *mrogen.Universe, prog *mrogen.Program, ty mrogen.Ty, o 
 	case "bool":
 		return (r.intn(2) == 0) != o.FlipBools
 	case "string", "file", "path":
-		return "s" + strconv.Itoa(r.intn(100000))
+		return "s" + strconv.Itoa(r.intn(100000)) + hostileSuffix(r)
 	case "map":
 		obj := jsonx.NewObj()
 		for i, n := 0, r.intn(3); i < n; i++ {
@@ -160,7 +172,7 @@ func genValue(r *rng, u *mrogen.Universe, prog *mrogen.Program, ty mrogen.Ty, o 
 		return obj
 	}
 	if u.IsFileType(ty.Base) {
-		return "f" + strconv.Itoa(r.intn(100000))
+		return "f" + strconv.Itoa(r.intn(100000)) + hostileSuffix(r)
 	}
 	var fields []mrogen.Field
 	if s := u.Struct(ty.Base); s != nil {
